@@ -191,8 +191,8 @@ func runC13(e *Env) error {
 		cD := &Case{Templates: tpls, Main: "main", Ctx: ctx, FailAt: -1}
 		cH := &Case{Templates: tplsH, Main: "main", Ctx: ctx, FailAt: -1}
 		if e.Rng.Intn(2) == 0 {
-			// the template parsed just before ends in a trimming delimiter: nothing of it may carry over
-			cD.Prime = pick(e.Rng, []string{"x {{ 1 -}}", "{% set z = 1 -%}", "a {#- c -#}", "{%- set q = 2 -%}", "{{- 1 -}}", "{% if 1 -%}", "{{ 1 -}"})
+			// the template parsed just before ends in a trimming delimiter or fails half-way: nothing of it may carry over
+			cD.Prime = pick(e.Rng, primers)
 			r.Hit("primed-with-trailing-trim")
 		}
 		iD, _, _, err := compareCase(e, cD, "render-model-c13", "correspondence render (Lean pipeline incl. applyWs/normalise vs real engine) on dashed templates")
@@ -247,6 +247,81 @@ func runC13(e *Env) error {
 			w := which
 			if err := check(nodes, ctx, func() bool { i++; return w == cnt || i-1 == w }, fmt.Sprintf("k%d:", ki)); err != nil {
 				return err
+			}
+		}
+	}
+	// token counts at the growth steps of the token buffer: the dashes of such a template still trim
+	for _, total := range tokenCountTargets(false) {
+		src := sourceWithTokens(e.Rng, total)
+		c := &Case{Templates: map[string]string{"main": src}, Main: "main", Ctx: map[string]any{"a": "A"}, FailAt: -1}
+		if _, _, _, err := compareCase(e, c, "render-model-c13", "correspondence render on dashed templates with a token count at a buffer boundary"); err != nil {
+			return err
+		}
+		r.Seen(fmt.Sprintf("tokens:%d:%s", total, src), strings.Contains(src, "-"))
+		r.Hit("token-count-boundary")
+	}
+	// templates above the large-template threshold whose dashes all sit on ONE kind of delimiter ({{- only, -}} only,
+	// {%- only, -%} only): each kind is emitted by its own code in each tokenizer
+	{
+		type piece struct{ open, body, close, text string }
+		seq := []piece{{"{%", "set x = 1", "%}", "X"}, {"{%", "if t", "%}", "A"}, {"{{", "x", "}}", "p"}, {"{%", "else", "%}", "B"}, {"{%", "endif", "%}", "C"},
+			{"{%", "for i in xs", "%}", "["}, {"{{", "i", "}}", "]"}, {"{%", "endfor", "%}", "D"}, {"{%", "set y = x", "%}", "E"}, {"{{", "y", "}}", "F"}}
+		filler := strings.Repeat("<li>filler</li>\n", 260)
+		for kind := 0; kind < 4 && !r.Full(); kind++ {
+			for rep := 0; rep < 6; rep++ {
+				var dashed, hand strings.Builder
+				for _, big := range []bool{rep%2 == 0} {
+					if big {
+						dashed.WriteString(filler)
+						hand.WriteString(filler)
+					}
+				}
+				prevTrimRight := false
+				for _, pc := range seq {
+					wsL, wsR := pick(e.Rng, []string{" ", "  \n ", "\t"}), pick(e.Rng, []string{" ", " \n  ", "\t\t"})
+					dl := (kind == 0 && pc.open == "{{" || kind == 2 && pc.open == "{%") && e.Rng.Intn(3) > 0
+					dr := (kind == 1 && pc.close == "}}" || kind == 3 && pc.close == "%}") && e.Rng.Intn(3) > 0
+					// text before the tag: "t" + wsL ; after: wsR + text
+					dashed.WriteString("t" + wsL + pc.open)
+					if dl {
+						dashed.WriteString("-")
+						hand.WriteString("t" + pc.open)
+					} else {
+						hand.WriteString("t" + wsL + pc.open)
+					}
+					dashed.WriteString(" " + pc.body + " ")
+					hand.WriteString(" " + pc.body + " ")
+					if dr {
+						dashed.WriteString("-")
+					}
+					dashed.WriteString(pc.close + wsR + pc.text)
+					if dr {
+						hand.WriteString(pc.close + pc.text)
+					} else {
+						hand.WriteString(pc.close + wsR + pc.text)
+					}
+					_ = prevTrimRight
+				}
+				if rep%2 == 1 {
+					dashed.WriteString(filler)
+					hand.WriteString(filler)
+				}
+				ctx := map[string]any{"t": rep%3 != 0, "xs": []interface{}{1, 2}}
+				cD := &Case{Templates: map[string]string{"main": dashed.String()}, Main: "main", Ctx: ctx, FailAt: -1}
+				iD, _, _, err := compareCase(e, cD, "render-model-c13", "correspondence render on large templates with one kind of dashed delimiter")
+				if err != nil {
+					return err
+				}
+				iH := runImpl(&Case{Templates: map[string]string{"main": hand.String()}, Main: "main", Ctx: ctx, FailAt: -1})
+				r.Seen(fmt.Sprintf("large-kind:%d:%d", kind, rep), true)
+				r.Hit(fmt.Sprintf("large-one-kind:%d", kind))
+				if iD.Class != iH.Class || iD.Out != iH.Out {
+					if r.Violate(Violation{Key: "dash-changes-more-than-whitespace", What: fmt.Sprintf("a %d-byte template whose only dashes are of kind %d (0 {{-, 1 -}}, 2 {%%-, 3 -%%}) and its hand-trimmed form differ: %s (%s) vs %s (%s)", len(dashed.String()), kind, truncate(iD.Out[max(0, len(iD.Out)-80):], 80), iD.Class+" "+truncate(iD.Msg, 80), truncate(iH.Out[max(0, len(iH.Out)-80):], 80), iH.Class),
+						Broken: "theorem C13_commutes / C14_scanners_agree no longer describes the code (implementation-only oracle)",
+						Replay: map[string]any{"kind": "dash-pair", "dashed_hex": hx(dashed.String()), "hand_hex": hx(hand.String()), "class_dashed": iD.Class, "class_hand": iH.Class, "msg": iD.Msg}}) {
+						return nil
+					}
+				}
 			}
 		}
 	}
